@@ -47,7 +47,7 @@ class TiledStride:
         # the previous step and the current bound
         steps = [simple_stride]
         for bound in reversed(tile_bounds[1:]):
-            steps = [bound * steps[0] if bound and steps[0] else None, *steps]
+            steps = [bound * steps[0] if bound and steps[0] is not None else None, *steps]
 
         return TiledStride([Stride(step, bound) for step, bound in zip(steps, tile_bounds)])
 
